@@ -578,8 +578,13 @@ func scoreBackgrounds(ver int) []struct {
 func checkScoreOf(r *ev.Run, ver, level, lv int, verLabel string, tok map[string]string, obj any, history []string) {
 	sub := lib.Sub(obj, lv)
 	var sc float64
-	pan := safeRun(func() string { sc = lib.Score(sub); return "" })
-	cs := map[string]any{"cvss": ver, "decoder": spec.LevelNames[level], "level": spec.LevelNames[lv], "history": history, "object_now_holds": canonicalWritten(ver, level, verLabel, tok)}
+	sev := ""
+	pan := safeRun(func() string {
+		sev, _ = lib.Severity(sub) // severity first: it must not answer from an older score
+		sc = lib.Score(sub)
+		return ""
+	})
+	cs := map[string]any{"cvss": ver, "decoder": spec.LevelNames[level], "level": spec.LevelNames[lv], "history": append(append([]string{}, history...), "Severity()"), "object_now_holds": canonicalWritten(ver, level, verLabel, tok)}
 	if pan != "" {
 		r.Violate(ev.Violation{Kind: "score-panics", Case: cs, Observed: pan, Expected: "a score"})
 		return
@@ -601,7 +606,33 @@ func checkScoreOf(r *ev.Run, ver, level, lv int, verLabel string, tok map[string
 	}
 	if !on || !inSet(ws, t) {
 		r.Violate(ev.Violation{Kind: "score-after-history", Case: cs, Observed: fmt.Sprint(sc), Expected: tenthStr(ws) + "  (the specification's score of what the object holds now)"})
+		return
 	}
+	if t >= 0 && t <= 100 && sev != band(ver, t) {
+		r.Violate(ev.Violation{Kind: "severity-after-history", Case: cs, Observed: fmt.Sprintf("severity %s (asked before the score), score %v", sev, sc), Expected: band(ver, t)})
+	}
+}
+
+// fieldBuilt returns a constructor result whose exported fields were assigned one by one (never
+// decoded), holding tok.
+func fieldBuilt(ver, level int, verLabel string, tok map[string]string) any {
+	o := lib.New(ver, level)
+	if ver == 3 {
+		v := 1
+		if verLabel == "3.1" {
+			v = 2
+		}
+		lib.SetV3Ver(o, v)
+	}
+	for _, m := range spec.UpTo(ver, level) {
+		code, ok := tok[m.Name]
+		if !ok {
+			continue
+		}
+		k, _ := lib.EnumOf(ver, m.Name).ConstOf(code)
+		lib.SetField(o, m.Name, k)
+	}
+	return o
 }
 
 func scoreSequences(r *ev.Run, ver, lv int) {
@@ -637,6 +668,61 @@ func scoreSequences(r *ev.Run, ver, lv int) {
 					checkScoreOf(r, ver, level, lv, bg.ver, t, o, []string{"Decode(" + s0 + ")", "Score() and Severity() of every view", fmt.Sprintf("field %s assigned the value for code %s", m.Name, c.Code), "Score()"})
 					n++
 				}
+			}
+			// (a') the same on an object that was never decoded: a constructor result whose exported
+			// fields were assigned (v3 only: a v2 object's groups exist only through Decode)
+			if ver == 3 {
+				for _, m := range spec.UpTo(ver, level) {
+					en := lib.EnumOf(ver, m.Name)
+					for ci, c := range m.Codes {
+						if c.Code == tok0[m.Name] || (m.Level == 0 && c.ND) {
+							continue
+						}
+						full := copyTok(tok0)
+						for _, mm := range spec.UpTo(ver, level) {
+							if _, ok := full[mm.Name]; !ok {
+								full[mm.Name] = mm.NDCode()
+							}
+						}
+						o := fieldBuilt(ver, level, bg.ver, full)
+						for q := 0; q <= level; q++ {
+							lib.Score(lib.Sub(o, q))
+						}
+						lib.SetField(o, m.Name, en.Consts[ci])
+						t := copyTok(full)
+						t[m.Name] = c.Code
+						checkScoreOf(r, ver, level, lv, bg.ver, t, o, []string{"constructor result with every exported field assigned to " + canonicalWritten(ver, level, bg.ver, full), "Score() of every view", fmt.Sprintf("field %s assigned the value for code %s", m.Name, c.Code)})
+						n++
+						break
+					}
+				}
+			}
+			// (e) exported optional fields assigned before Decode; the vector spells those metrics out as Not Defined
+			for _, m := range spec.UpTo(ver, level) {
+				if m.Level == 0 {
+					continue
+				}
+				en := lib.EnumOf(ver, m.Name)
+				d := lib.New(ver, level)
+				pre := 0
+				for ci, c := range m.Codes {
+					if !c.ND {
+						pre = en.Consts[ci]
+					}
+				}
+				lib.SetField(d, m.Name, pre)
+				t := copyTok(tok0)
+				if ver == 2 && !lang.GroupPresent(t, m.Level) {
+					continue
+				}
+				t[m.Name] = m.NDCode()
+				st := canonicalWritten(ver, level, bg.ver, t)
+				o, err, _ := lib.Decode(d, st)
+				if err != nil || o == nil {
+					continue
+				}
+				checkScoreOf(r, ver, level, lv, bg.ver, t, o, []string{fmt.Sprintf("constructor result, field %s assigned a defined value", m.Name), "Decode(" + st + ") on it"})
+				n++
 			}
 			// (b) v3: query, assign the other version, query again
 			if ver == 3 {
